@@ -149,7 +149,8 @@ def classify(tm, p, l, name, probs):
     return 'other'
 
 
-def judge(tm, p, l, res, budget):
+def judge(tm, p, l, res, budget, given=0):
+    # given: samples the caller put into the grid before the call (pre-seeded configurations); they are loaded but were never launched by the call
     """what the property demands of the restarted run"""
     K = tm.K(p); saved = tm.B_calls[K] if K >= 0 else 0
     problems = []
@@ -157,7 +158,7 @@ def judge(tm, p, l, res, budget):
     else:
         if res['status'] != 0: problems.append('the restarted call raises an exception')
         if res['err'] > 1e-9: problems.append('the final surrogate does not reproduce the model at its loaded points (err %.2e)' % res['err'])
-        if res['loaded'] > budget: problems.append('more points loaded (%d) than the budget %d' % (res['loaded'], budget))
+        if res['loaded'] > budget + given: problems.append('more points loaded (%d) than the budget %d (+%d supplied by the caller)' % (res['loaded'], budget, given))
         again = sorted(set(res.get('recomputed', [])) & set(res.get('held_by_image', [])))
         if again: problems.append('a sample held by the recovered checkpoint image %d is computed again after recovery (%s)' % (res.get('image_used', -1), again[0]))
         if res['calls'] > budget - saved: problems.append('re-computes %d samples although checkpoint %d with %d samples had completed before the crash (at most %d allowed)' % (res['calls'], K, saved, budget - saved))
@@ -167,7 +168,7 @@ def judge(tm, p, l, res, budget):
 def run_config(name, sp, budget, batch, tier):
     t0 = time.time()
     exe, plain, binfo = build.ensure_harness('C17')
-    work = os.path.join(build.BUILD, 'work', PROP, name); args = [sp, str(budget), str(batch)]
+    work = os.path.join(build.BUILD, 'work', PROP, name); args = [sp, str(budget), str(batch)]; given = 1 if str(batch).endswith('p') else 0
     events, r = record_trace(plain, args, work)
     tm = TraceModel(events)
     out = {'config': name, 'events': len(events), 'checkpoints': len(tm.B), 'violations': [], 'replays': 0, 'queries': 0, 'solver_s': 0.0, 'samples': [], 'classes': 0, 'inconclusive': []}
@@ -185,7 +186,7 @@ def run_config(name, sp, budget, batch, tier):
         cex = ask(q, label); verdicts[label] = cex
         if cex is not None:
             res = materialise(tm, cex[0], cex[1], plain, args, work); out['replays'] += 1
-            probs = judge(tm, cex[0], cex[1], res, budget)
+            probs = judge(tm, cex[0], cex[1], res, budget, given)
             ev = tm.ev[cex[0]] if cex[0] < tm.N else ('end',)
             desc = 'crash at trace position %d of %d (%s %s), torn bytes %d; file states: ck=%s, ck_old=%s' % (cex[0], tm.N, ev[0], ev[1] if len(ev) > 1 and isinstance(ev[1], str) else '', cex[1],
                     'image %d' % avail_of(tm, 'ck', cex) if avail_of(tm, 'ck', cex) >= 0 else 'no complete image', 'image %d' % avail_of(tm, 'old', cex) if avail_of(tm, 'old', cex) >= 0 else 'no complete image')
@@ -210,7 +211,7 @@ def run_config(name, sp, budget, batch, tier):
     known_bad = set((v['p'], v['l']) for v in out['violations'])
     for (q, tl) in reps:
         res = materialise(tm, q, tl, plain, args, work); out['replays'] += 1
-        probs = judge(tm, q, tl, res, budget)
+        probs = judge(tm, q, tl, res, budget, given)
         if probs and (q, tl) not in known_bad:
             # the real code misbehaves on a state the invariant queries did not flag: report with the observation
             ev = tm.ev[q] if q < tm.N else ('end',)
@@ -229,7 +230,9 @@ def avail_of(tm, f, cex):
 def run(tier, seed, only=None):
     t0 = time.time()
     cfgs = [('lp-localp-d2-b6-batch1', spec('localp', 'localp', 2, 1, 1, order=1), 6, 1), ('sq-rleja-d2-b5-batch2', spec('sequence', 'rleja', 2, 1, 1), 5, 2), ('gl-cc-d2-b7-batch1', spec('global', 'clenshaw-curtis', 2, 1, 1), 7, 1)]
+    cfgs += [('lp-localp-d2o1-b6-batch1-preseed', spec('localp', 'localp', 2, 1, 1, order=1), 6, '1p'), ('sq-rleja-d2o1-b5-batch1-preseed', spec('sequence', 'rleja', 2, 1, 1), 5, '1p')]   # outputs != dimensions, parked samples in every image
     if tier != 'quick':
+        cfgs += [('wv-wavelet-d2o1-b6-batch1-preseed', spec('wavelet', 'wavelet', 2, 1, 1, order=1), 6, '1p'), ('lp-semilocalp-d1o2-b5-batch2-preseed', spec('localp', 'semi-localp', 1, 2, 1, order=2), 5, '2p'), ('gl-cc-d2o1-b7-batch1-preseed', spec('global', 'clenshaw-curtis', 2, 1, 1), 7, '1p')]
         cfgs += [('gl-cc-d2-b6-batch1', spec('global', 'clenshaw-curtis', 2, 1, 1), 6, 1), ('gl-rlejadouble2-d2-b9-batch2', spec('global', 'rleja-double2', 2, 1, 2), 9, 2), ('gl-leja-d2-b6-batch1', spec('global', 'leja', 2, 1, 2), 6, 1), ('lp-semilocalp-d2-b6-batch2', spec('localp', 'semi-localp', 2, 1, 1, order=2), 6, 2), ('fr-fourier-d1-b5-batch1', spec('fourier', 'fourier', 1, 1, 1), 5, 1),
                  ('lp-localp-d1-b4-batch1', spec('localp', 'localp', 1, 2, 1, order=1), 4, 1)]
     if only: cfgs = [c for c in cfgs if re.search(only, c[0])]
